@@ -155,5 +155,5 @@ def perturb(prog, cut, rng, kind=None):
                 if cut < T:
                     new.append([rng.randint(cut, T - 1), rng.choice(q["cols"]), rng.choice([5, -5, 20]), rng.choice([10, 20, 30]), 0])
                     changed = True
-            bl["rows"] = sorted(new, key=lambda r: (r[0], -r[4] if len(r) > 4 else 0))
+            bl["rows"] = new  # (order kept: a blotter need not be sorted by date)
     return q, changed
